@@ -7,6 +7,7 @@
 #![allow(dead_code)]
 mod rng;
 mod sx;
+mod c08;
 mod c13;
 
 use rng::Rng;
@@ -24,6 +25,7 @@ pub struct Prop {
 
 fn prop(id: &str) -> Prop {
     match id {
+        "C08" => Prop { gen: c08::gen, run: c08::run },
         "C13" => Prop { gen: c13::gen, run: c13::run },
         _ => { eprintln!("unknown property {}", id); std::process::exit(2) }
     }
